@@ -66,7 +66,9 @@ m('tx4-read-op-commits', 'TX4', 'DB.FindById', ('db.go', '''func (db *DB) FindBy
 	tx, err := db.store.Begin(true)'''), ('db.go', '''	return getDocumentById(collection, id, tx)
 }''', '''	doc, err := getDocumentById(collection, id, tx)
 	if err == nil {
-		err = tx.Commit()
+		if err = tx.Set([]byte("stat:lastRead"), []byte(id)); err == nil {
+			err = tx.Commit()
+		}
 	}
 	return doc, err
 }'''))
